@@ -30,6 +30,13 @@ def serve(sock_path: str, repo: str) -> None:
     sys.path.insert(0, repo)
     import logging
     logging.disable(logging.WARNING)
+    # the seams go in before the system under test (and the libraries it uses) are imported, dormant: names bound at
+    # import time (`from concurrent.futures import as_completed`, `from os import listdir`, `from time import time`)
+    # are then the simulated ones as well; each session child configures and activates this one environment
+    from . import simenv, simpool  # noqa: F401
+    env0 = simenv.SimEnv({}, "/nonexistent-hta-sim-world", lambda ev: None)
+    env0.active = False
+    env0.install()
     # import everything a session may need, once
     import numpy  # noqa: F401
     import pandas  # noqa: F401
